@@ -19,3 +19,8 @@ open Uflow.Props.C01Sys
 #print axioms C01_sys_fresh_of_recent
 #print axioms C01_sys_fresh_automatic_noack
 #print axioms C01_sys_example
+#print axioms C01_sys_syncs_genuine
+#print axioms C02_sys_synced_reliable_received
+#print axioms C02_sys_resync_keeps_reliable
+#print axioms C01_sys_syncfresh_of_recent
+#print axioms C01_sys_sync_example
